@@ -37,6 +37,11 @@ theorem map_inv_fit (K : Kernel X Wt α μ) (cfg : SearchCfg μ θ) (th0 : θ)
     (s : SMapState Wt) (xys : List (X × Nat)) : MapInv (smapFit K cfg th0 s xys) :=
   smapFit_inv K cfg th0 s xys
 
+/-- **map_inv** after `fit` with any number of epochs (`max_iter`) -/
+theorem map_inv_fit_epochs (K : Kernel X Wt α μ) (cfg : SearchCfg μ θ) (th0 : θ) (epochs : Nat)
+    (xys : List (X × Nat)) : MapInv (smapFitEpochs K cfg th0 epochs xys) :=
+  smapFitEpochs_inv K cfg th0 epochs xys
+
 /-- mapping the stored A-side labels reproduces the supplied targets exactly
 (so the implementation's `assert self.map[c_a] == c_b` is unreachable) -/
 theorem map_a2b_reproduces_targets (K : Kernel X Wt α μ) (cfg : SearchCfg μ θ) (th0 : θ)
